@@ -28,21 +28,33 @@ import (
 type c13Acct struct {
 	login string
 	bits  []int
+	name  *string // account Name; nil = "Acct-<index>"
 }
 
+var c13Blank = ""
+
 var c13Accts = []c13Acct{
-	{"g0", []int{hotline.AccessSendPrivMsg}},
-	{"g1", []int{hotline.AccessSendPrivMsg, hotline.AccessAnyName, hotline.AccessOpenChat}},
-	{"g2", []int{hotline.AccessSendPrivMsg, hotline.AccessAnyName, hotline.AccessDisconUser, hotline.AccessModifyUser, hotline.AccessGetClientInfo, hotline.AccessOpenChat}},
-	{"g3", nil},
-	{"g4", []int{hotline.AccessAnyName, hotline.AccessModifyUser}},
-	{"g5", []int{hotline.AccessSendPrivMsg, hotline.AccessDisconUser, hotline.AccessCannotBeDiscon, hotline.AccessGetClientInfo}},
+	{"g0", []int{hotline.AccessSendPrivMsg}, nil},
+	{"g1", []int{hotline.AccessSendPrivMsg, hotline.AccessAnyName, hotline.AccessOpenChat}, nil},
+	{"g2", []int{hotline.AccessSendPrivMsg, hotline.AccessAnyName, hotline.AccessDisconUser, hotline.AccessModifyUser, hotline.AccessGetClientInfo, hotline.AccessOpenChat}, nil},
+	{"g3", nil, nil},
+	{"g4", []int{hotline.AccessAnyName, hotline.AccessModifyUser}, nil},
+	{"g5", []int{hotline.AccessSendPrivMsg, hotline.AccessDisconUser, hotline.AccessCannotBeDiscon, hotline.AccessGetClientInfo}, nil},
+	// an account whose Name is empty and that may not choose its name: every name the server derives for it is blank
+	{"g6", []int{hotline.AccessSendPrivMsg}, &c13Blank},
+}
+
+func c13AcctName(i int) string {
+	if c13Accts[i].name != nil {
+		return *c13Accts[i].name
+	}
+	return fmt.Sprintf("Acct-%d", i)
 }
 
 func c13Accounts() []AcctSpec {
 	var as []AcctSpec
 	for i, a := range c13Accts {
-		as = append(as, AcctSpec{Login: a.login, Name: fmt.Sprintf("Acct-%d", i), Access: accessOf(a.bits...)})
+		as = append(as, AcctSpec{Login: a.login, Name: c13AcctName(i), Access: accessOf(a.bits...)})
 	}
 	return as
 }
@@ -150,6 +162,9 @@ type c13cl struct {
 	// options field came without that bit
 	refuseSpec bool
 	autoSpec   []byte
+	// looped clients (wave d): logged in through the real handleNewConnection over an in-memory connection whose
+	// goroutine keeps running the real connection loop; nil for clients registered directly
+	wc *WireClient
 }
 
 type c13run struct {
@@ -161,6 +176,8 @@ type c13run struct {
 	req     uint32
 	ops     map[string]int
 	checks  int
+	loop    bool // presence-history: some clients log in through the real handleNewConnection
+	barrier uint32
 }
 
 func (h *c13run) live() []*c13cl {
@@ -294,6 +311,11 @@ func optTok(b []byte, present bool) string {
 }
 
 func (h *c13run) connect(r *RNG) *c13cl {
+	if h.loop && r.Chance(45) {
+		if cl := h.loginLoop(r); cl != nil {
+			return cl
+		}
+	}
 	a := r.Intn(len(c13Accts))
 	cc, nc := h.ts.DirectClient(c13Accts[a].login, nil, fmt.Sprintf("10.2.%d.%d:4000", len(h.clients)/200, len(h.clients)%200+1))
 	cl := &c13cl{cc: cc, nc: nc, id: int(binary.BigEndian.Uint16(cc.ID[:])), acct: a, live: true}
@@ -564,7 +586,7 @@ func (h *c13run) step(r *RNG) {
 		}
 		mayModify := actor.cc.Account.Access.IsSet(hotline.AccessModifyUser)
 		outs, ok := h.call(actor, mkTran(hotline.TranSetUser, h.req,
-			fld(hotline.FieldUserLogin, hotline.EncodeString([]byte(login))), fld(hotline.FieldUserName, []byte(fmt.Sprintf("Acct-%d", tgt))),
+			fld(hotline.FieldUserLogin, hotline.EncodeString([]byte(login))), fld(hotline.FieldUserName, []byte(c13AcctName(tgt))),
 			fld(hotline.FieldUserAccess, acc[:]), fld(hotline.FieldUserPassword, []byte{0})))
 		if !ok {
 			return
@@ -584,8 +606,11 @@ func (h *c13run) step(r *RNG) {
 		} else {
 			h.ops["set-user-denied"]++
 		}
+	case op >= 92:
+		// a request the handler cannot digest (short / missing Options, short user id): see c13_wave_d.go
+		h.malformed(r, actor)
 	case op < 76 && len(lv) > 1:
-		outs := disconnectSync(h.ts, actor.cc)
+		outs := h.hangUp(actor)
 		actor.live = false
 		h.record(fmt.Sprintf("D %d", actor.id), outs)
 		got := map[int]int{}
@@ -755,9 +780,6 @@ func (h *c13run) instantMessageToID(r *RNG, actor, target *c13cl, targetID int, 
 
 func (h *c13run) implState() string {
 	lv := h.live()
-	if len(lv) == 0 {
-		return ""
-	}
 	var es []string
 	for _, cc := range h.ts.Srv.ClientMgr.List() {
 		fl := int(binary.BigEndian.Uint16(cc.Flags[:]))
@@ -788,9 +810,10 @@ func runPresenceHistory(c *Case) {
 		panic(err)
 	}
 	defer ts.Close()
-	h := &c13run{c: c, ts: ts, req: 1000, ops: map[string]int{}}
+	h := &c13run{c: c, ts: ts, req: 1000, ops: map[string]int{}, loop: true}
+	defer h.endLoops()
 	n := 2 + r.Intn(4)
-	for i := 0; i < n; i++ {
+	for i := 0; i < n && !c.failed; i++ {
 		h.connect(r)
 	}
 	steps := 25 + r.Intn(30)
@@ -799,6 +822,7 @@ func runPresenceHistory(c *Case) {
 		h.idsCheck("after an event")
 		if r.Chance(25) {
 			h.convergenceCheck(fmt.Sprintf("after event %d", len(h.evs)))
+			h.soundCheck(fmt.Sprintf("after event %d", len(h.evs)))
 		}
 	}
 	// settle: every half-way login completes, then every client must have converged
@@ -810,7 +834,7 @@ func runPresenceHistory(c *Case) {
 	if !c.failed {
 		h.convergenceCheck("at the end of the history")
 	}
-	line := "c13run " + strings.Join(h.evs, " ")
+	line := "c13runx " + strings.Join(h.evs, " ")
 	c.Note("history", clip(strings.Join(h.evs, " ")))
 	ans := c.O.Ask(line)
 	implLine := fmt.Sprintf("%d ", len(h.evs)) + strings.Join(h.impl, " | ") + " || " + h.implState()
@@ -830,7 +854,7 @@ func runPresenceHistory(c *Case) {
 		}
 	}
 	c.Corr("presence-history", implLine, ans, false)
-	c.Corr("notes-decode", "agree", c.O.Ask("c13notes "+strings.Join(h.evs, " ")), false)
+	c.Corr("notes-decode", "agree", c.O.Ask("c13notesx "+strings.Join(h.evs, " ")), false)
 	for k, v := range h.ops {
 		for i := 0; i < v; i++ {
 			c.Dist("op/" + k)
@@ -1426,7 +1450,7 @@ func runPresenceWire(c *Case) {
 		} else {
 			icon = []byte{0, 0}
 		}
-		name := textBytes(r, r.Pick(1, 5, 13, 20))
+		name := textBytes(r, r.Pick(0, 1, 5, 13, 20))
 		if named {
 			extra = append(extra, fld(hotline.FieldUserName, name))
 		}
@@ -1454,9 +1478,18 @@ func runPresenceWire(c *Case) {
 		acct := cc.Account
 		if named {
 			evs = append(evs, fmt.Sprintf("LN %s %s %s %s %s", hx([]byte(acct.Login)), hx([]byte(acct.Name)), hx(acct.Access[:]), hx(name), hx(icon)))
-			u.agreed = true
-			for _, o := range live() {
-				o.want++
+			// the name the request determines (field for an any-name account, else the account's Name): when it is not
+			// blank the login is complete with its reply and everybody else is told at once; a blank one leaves the
+			// login half-way until an Agreed (the server cannot tell it from a 1.5+ login)
+			spec := []byte(acct.Name)
+			if acct.Access.IsSet(hotline.AccessAnyName) {
+				spec = name
+			}
+			if len(spec) != 0 {
+				u.agreed = true
+				for _, o := range live() {
+					o.want++
+				}
 			}
 		} else {
 			evs = append(evs, fmt.Sprintf("C %s %s %s %s", hx([]byte(acct.Login)), hx([]byte(acct.Name)), hx(acct.Access[:]), hx(icon)))
@@ -1664,12 +1697,13 @@ func runPresenceWire(c *Case) {
 
 func init() {
 	props["C13"] = func(x *Ctx) {
-		x.rule = "histories of connect (1.5+ login, name still empty) / agreed (name, 2- or 4-byte icon, options 0..7, automatic response) / set-client-user-info (with and without options) / set-user (privilege change by users with and without modify-user; toggles the admin flag) / disconnect / instant message (refuse flag, automatic reply, quote, ids nobody holds) / fetch by 2-8 clients over 6 accounts; per-connection inboxes are built by routing every transaction through the real client table; after events (25%) and at the end, when no login is half-way, every client's folded roster must equal a fresh user-list reply. id-wrap: users alive at ids 1,2,3,7,100,65533..65535 while the counter crosses 65 535 / 2^32 with adds and deletes; long-wrap: one 2·10^5-step add/delete history (<= 40 alive) crossing 65 535 three times; disconnect-race: another client's login + list fetch placed (client-manager wrapper) at the moment Disconnect lists the table for its user-left audience, then roster convergence of everybody; targeted: private-chat traffic / message / invitation / info / disconnect addressed to an id after the wrap; option-switch: automatic response / refuse-messages switched on, changed, off (and on) again with set-client-user-info, then a private message each way judged against the current settings; presence-wire: both login flows, Agreed, set-client-user-info, fetch and client-side close over real connections (handleNewConnection + processOutbox), rosters folded from the bytes each connection received. non-trivial = history with >= 2 completed logins, a later change or departure and >= 1 roster comparison (presence); every wrap / targeted case; distinct = distinct event lists / parameters"
+		x.rule = "histories of connect (1.5+ login, name still empty) / agreed (name, 2- or 4-byte icon, options 0..7, automatic response) / set-client-user-info (with and without options) / set-user (privilege change by users with and without modify-user; toggles the admin flag) / disconnect / instant message (refuse flag, automatic reply, quote, ids nobody holds) / fetch by 2-8 clients over 6 accounts; per-connection inboxes are built by routing every transaction through the real client table; after events (25%) and at the end, when no login is half-way, every client's folded roster must equal a fresh user-list reply. id-wrap: users alive at ids 1,2,3,7,100,65533..65535 while the counter crosses 65 535 / 2^32 with adds and deletes; long-wrap: one 2·10^5-step add/delete history (<= 40 alive) crossing 65 535 three times; disconnect-race: another client's login + list fetch placed (client-manager wrapper) at the moment Disconnect lists the table for its user-left audience, then roster convergence of everybody; targeted: private-chat traffic / message / invitation / info / disconnect addressed to an id after the wrap; option-switch: automatic response / refuse-messages switched on, changed, off (and on) again with set-client-user-info, then a private message each way judged against the current settings; presence-wire: both login flows, Agreed, set-client-user-info, fetch and client-side close over real connections (handleNewConnection + processOutbox), rosters folded from the bytes each connection received. wave d: 45% of the logins of a presence history go through the real handleNewConnection over an in-memory connection and stay in the real connection loop (outbox collected by the harness; a keep-alive closes each batch), the login request carrying the user-name field absent / empty / non-empty on accounts with and without any-name and with an empty or non-empty account Name (announcement due iff the name the request determines is not blank); 8% of the steps are requests the handler cannot digest (set-client-user-info with an Options field of 0 or 1 bytes, Agreed with Options absent or short, a private message with a short user id), through the real loop or the real handleTransaction: user-left to everybody when the session ended, the new row to everybody else when it was kept, every roster right about everybody it lists in every state (never_wrong judged on the implementation), fold = fresh list when settled. non-trivial = history with >= 2 completed logins, a later change or departure and >= 1 roster comparison (presence); every wrap / targeted case; distinct = distinct event lists / parameters"
 		x.assume = []string{
 			"a client fetches its user list after its own login completed and sends Agreed once (the server does not echo a user's own Agreed back to it)",
 			"roster comparison only when nothing is in flight and no login is half-way (DESIGN §7 C13 Reading); histories are sequential",
 			"icon ids are 2-byte values, or 4-byte integers whose value fits 16 bits (a listed record has room for 2 bytes)",
 			"fewer than 65 535 users connected at once (the allocator loop needs a free id)",
+			"a login whose user-name field yields a blank name (empty field with any-name, or an account whose Name is empty) is treated as half-way until its Agreed, as the server does (docs/C13.md, observation)",
 		}
 		fams := []*Family{
 			{Name: "presence-history", Quick: 1500, Thor: 30000, Run: runPresenceHistory},
